@@ -1,7 +1,7 @@
 """C20 — automatic scalings normalise magnitudes with exact powers of two."""
 from ..gen import Gen
 from ..unit import run_unit
-from ..units.autoscale import AutoScale
+from ..units.autoscale import AutoScale, CreateScaling
 
 PROP_FILES = ["props/C20.v"]
 TECHNIQUE = "Coq proof + exact differential correspondence"
@@ -9,5 +9,5 @@ TECHNIQUE = "Coq proof + exact differential correspondence"
 
 def run(rep, tier, seed, scratch):
     g = Gen(seed)
-    u = AutoScale()
-    run_unit(rep, u, u.gen(g, tier), scratch)
+    for u in (AutoScale(), CreateScaling()):
+        run_unit(rep, u, u.gen(g, tier), scratch)
